@@ -416,8 +416,12 @@ pub struct QueryState<'a> {
 
 impl Drop for QueryState<'_> {
     fn drop(&mut self) {
-        // FIXME: This may be wrong if the iterator is not fully consumed, but from testing it
-        // seems fine. Is this really ok?
+        // NOTE: an iterator that is dropped before it is exhausted still has choice points
+        // above the stub: discard them first, then pop the stub itself.
+        if self.machine.machine_st.b > self.stub_b {
+            self.machine.machine_st.b = self.stub_b;
+        }
+
         self.machine.trust_me();
     }
 }
